@@ -246,6 +246,16 @@ impl<'a> Cursor<'a> {
                     '\\' => {
                         state = State::StringLiteralBackslash;
                     }
+                    curr if is_line_terminator(curr) => {
+                        // Same as in `State::StringLiteral`: the first character of a quoted
+                        // string must not be a raw line terminator either.
+                        self.add_err(Error::with_loc(
+                            "unexpected line terminator",
+                            "".to_string(),
+                            0,
+                        ));
+                        state = State::StringLiteral;
+                    }
                     _ => {
                         state = State::StringLiteral;
 
